@@ -461,6 +461,11 @@ func (s *Server) handlePostHandoff(w http.ResponseWriter, r *http.Request) {
 func (s *Server) handlePostTx(w http.ResponseWriter, r *http.Request) {
 	q := r.URL.Query()
 	name := q.Get("name")
+	lockID, err := strconv.ParseInt(q.Get("lockID"), 10, 64)
+	if err != nil {
+		Error(w, r, fmt.Errorf("invalid lock id: %q", q.Get("lockID")), http.StatusBadRequest)
+		return
+	}
 
 	// Cannot issue remote halt lock from this node.
 	if id, _ := litefs.ParseNodeID(r.Header.Get(HeaderNodeID)); id == s.store.ID() {
@@ -475,7 +480,13 @@ func (s *Server) handlePostTx(w http.ResponseWriter, r *http.Request) {
 		return
 	}
 
-	// TODO(fwd): Ensure halt lock is held by caller.
+	// Ensure halt lock is held by caller. The halt lock holds the write lock
+	// on this database on behalf of the caller.
+	if !db.HoldsHaltLock(lockID) {
+		Error(w, r, fmt.Errorf("halt lock not held: %d", lockID), http.StatusConflict)
+		return
+	}
+
 	// TODO(fwd): Prevent halt lock release during copy & apply.
 
 	// Wrap request body in a chunked reader.
